@@ -385,5 +385,11 @@ func importPremises(c *Ctx, w *World, prop string, fn func(*Ctx, *World), famili
 	for _, f := range sub.fatal {
 		c.fail(as, "premise "+prop, "-", f)
 	}
+	// a premise run that lost an anchor (or could not decide something at engine level) proves nothing
+	for _, o := range sub.Obs {
+		if strings.HasPrefix(o.Rule, "engine.") && o.Status != "ok" {
+			c.add(as, "premise "+prop+": "+o.Rule+" @ "+o.Construct, o.Status, o.Pos, o.Detail, true)
+		}
+	}
 	c.floor(as, n, 1)
 }
